@@ -64,7 +64,7 @@ Long ==
             tiles  == /\ Len(rle) >= 1 /\ rle[1].first = 0
                       /\ \A j \in 1..(Len(rle) - 1) : rle[j + 1].first = rle[j].first + rle[j].count
                       /\ rle[Len(rle)].first + rle[Len(rle)].count = cs.nframes
-                      /\ \A j \in 1..Len(rle) : rle[j].count >= 1 /\ rle[j].len < 4096
+                      /\ \A j \in 1..Len(rle) : rle[j].count >= 1 /\ (rle[j].len < 4096 \/ (rle[j].count < 16 /\ rle[j].len < 16777216))
             total  == FoldLeft(LAMBDA a, r : AddWide(a, MulSmall(r.count, r.len)), << 0, 42 >>, rle)
             minLen == FoldLeft(LAMBDA a, r : Min2(a, r.len), rle[1].len, rle)
             maxLen == FoldLeft(LAMBDA a, r : Max2(a, r.len), rle[1].len, rle)
